@@ -58,9 +58,14 @@ class ElemEval:
     """Evaluate a term for ONE element.  `bind` maps terms to values (Pos, int, bool, 'amp')."""
 
     def __init__(self, E, bind, edges_terms=()):
-        self.E = E
+        """E: int (one edge vector) or dict edges_term -> number of edges."""
         self.bind = dict(bind)
-        self.edges = set(edges_terms)
+        if isinstance(E, dict):
+            self.Emap = dict(E)
+            self.edges = set(E)
+        else:
+            self.edges = set(edges_terms)
+            self.Emap = {e: E for e in self.edges}
 
     def ev(self, t):
         if t in self.bind:
@@ -80,13 +85,16 @@ class ElemEval:
                     raise Undecided('digitize against unknown edges %s' % show(t[2][1])[:40])
                 if dict(t[3]).get('right', ('c', False)) != ('c', False):
                     raise Undecided('digitize(right=True)')
-                return digitize(x, self.E)
+                return digitize(x, self.Emap[t[2][1]])
             if name == 'builtins.len' and len(t[2]) == 1 and t[2][0] in self.edges:
-                return self.E
+                return self.Emap[t[2][0]]
             if name in IDENTITY_CALL and t[2]:
                 a = t[2][0]
                 return self.ev(a)
             if name in IDENTITY_CALL and t[3]:
+                lst = dict(t[3]).get('to_check')
+                if lst is not None and lst[0] in ('list', 'tuple') and len(lst[1]) == 1:
+                    return self.ev(lst[1][0])
                 # ensure_*([a, b], ...) -> evaluated through the subscript of its result
                 raise Undecided('ensure on a list')
             if name in ('numpy.any', 'numpy.all') and t[2]:
@@ -122,6 +130,9 @@ class ElemEval:
                     return self.ev(lst[1][idx[1]])
             if base in self.edges and is_c(idx):
                 return ('edge', idx[1])
+            from .poly import _shape_only_index
+            if _shape_only_index(idx):
+                return self.ev(base)
             # boolean filter: element kept iff mask true
             try:
                 m = self.ev(idx)
